@@ -18,11 +18,25 @@ DIGITS = "0123456789"
 
 @st.composite
 def decimals(draw, max_len):
-    shape = draw(st.sampled_from(["uniform", "nines", "power", "power_d", "run", "blocks", "small", "uniform"]))
+    shape = draw(st.sampled_from(["uniform", "nines", "power", "power_d", "run", "blocks", "small", "uniform",
+                                  "round_blocks", "special_length"]))
     if shape == "small":
         return str(draw(st.integers(0, 999)))
     n = draw(st.one_of(st.integers(1, 12), st.integers(1, max_len), st.integers(1, max_len),
                        st.integers(4290, 6000) if draw(st.integers(0, 9)) == 0 else st.integers(1, 60)))
+    if shape == "round_blocks":
+        # short prefixes followed by runs of zeros: block products that are exact multiples of powers of ten
+        parts = []
+        for _ in range(draw(st.integers(1, 6))):
+            parts.append(draw(st.sampled_from(["5", "15", "25", "125", "2", "4", "75", "375", "5", "625", "1", "35"]))
+                         + "0" * draw(st.integers(4, 12)))
+        text = "".join(parts) + draw(st.sampled_from(["", "", "5", "00", "7"]))
+        return text.lstrip("0") or "0"
+    if shape == "special_length":
+        n = draw(st.sampled_from([9, 18, 27, 64, 128, 255, 256, 257, 511, 512, 513, 768, 1023, 1024, 1025, 2048,
+                                  4096, 4300, 4301]))
+        head = draw(st.sampled_from(DIGITS[1:]))
+        return head + draw(st.text(alphabet=DIGITS, min_size=n - 1, max_size=n - 1))
     if shape == "uniform":
         head = draw(st.sampled_from(DIGITS[1:]))
         return head + draw(st.text(alphabet=DIGITS, min_size=n - 1, max_size=n - 1))
@@ -56,7 +70,7 @@ def cases(draw, tier):
     base = draw(st.integers(1 if op == "div" else 0, 9))
     if op == "sub" and len(number) == 1 and int(number) < base:
         base = draw(st.integers(0, int(number)))
-    return {"op": op, "number": number, "base": str(base)}
+    return {"op": op, "number": number, "base": str(base), "thread": draw(st.sampled_from([False] * 7 + [True]))}
 
 
 def schoolbook_states(op, number, base):
@@ -112,7 +126,17 @@ def evaluate(case):
         classes.append("len>4300")
     classes += sorted(states)
     nontrivial = (len(number) > 3 or b > 4) and carried
-    got = lib_call(function, number=number, base=base)
+    if case.get("thread"):
+        # the same call from another thread (fresh thread-local state): the result must not depend on the caller
+        import threading
+        box = []
+        worker = threading.Thread(target=lambda: box.append(lib_call(function, number=number, base=base)))
+        worker.start()
+        worker.join()
+        got = box[0]
+        classes.append("other_thread")
+    else:
+        got = lib_call(function, number=number, base=base)
     if isinstance(got, Raised):
         return bad("%s(%r, %r) raised %r" % (op, number[:60], base, got), classes)
     if op == "div":
@@ -125,7 +149,7 @@ def evaluate(case):
 
 SUBCHECKS = [
     SubCheck("arith", evaluate, strategy=cases, examples=(20000, 400000), shards=(16, 16),
-             floors={"carry": 2000, "len>3": 5000, "operand>4": 4000, "sub": 2000, "div": 2000, "len>4300": 100},
+             floors={"carry": 2000, "len>3": 5000, "operand>4": 4000, "sub": 2000, "div": 2000, "len>4300": 100, "other_thread": 1000},
              rule=RULE),
 ]
 
